@@ -108,6 +108,7 @@ def runSched (j : Json) : Json :=
   let hyps : List (String × Bool) :=
     [("noSummaryLinks", noSummaryLinks env), ("consistentFixed", consistentFixed env f0),
      ("clockBeforeStartDay", clockBeforeStartDay env (4 * env.n + 4)),
+     ("clockNotAfterStart", clockNotAfterStart env (4 * env.n + 4)),
      ("clockLeBound", (List.range (4 * env.n + 5)).all (fun k => decide (env.clock k ≤ env.bound))), ("noFixedDates", noFixedDates env f0),
      ("outsideLeaves", outsideLeaves env), ("mustDiagnose", c14MustDiagnose env0 f00 fwd)]
   let mons : List (String × Bool) := match implRes with
